@@ -35,7 +35,7 @@ def exhaustive(tier):
 def required(tier):
     return {"answers_compared": 2500, "repeated_after_state_change": 800, "cache_hits_observed": 500,
             "state_changes": 300, "distinct_states": 15, "second_registry_touches": 20,
-            "redefinition_histories": 20, "keyword_activations": 50, "keyword_override_histories": 20, "redefining_context_histories": 8, "new_name_histories": 6, "derived_spelling_histories": 10, "explicit_system_histories": 8}
+            "redefinition_histories": 20, "keyword_activations": 50, "keyword_override_histories": 20, "redefining_context_histories": 8, "new_name_histories": 6, "derived_spelling_histories": 10, "compatible_listing_histories": 4, "explicit_system_histories": 8}
 
 
 NEWDEFS = ["vfu0 = 3 * meter = vf0", "vfu1 = 7 * vfu0", "vfu2 = 2 * pound * vfu1 / second ** 2",
@@ -107,6 +107,9 @@ def shards(tier, seed):
                     "nit": "fraction" if i % 2 else "float"})
     for i in range(2 if tier == "quick" else 6):
         out.append({"kind": "newname", "name": f"newname{i}", "n": 3 if tier == "quick" else 30,
+                    "nit": "fraction" if i % 2 else "float"})
+    for i in range(2 if tier == "quick" else 6):
+        out.append({"kind": "compatctx", "name": f"compatctx{i}", "n": 3 if tier == "quick" else 25,
                     "nit": "fraction" if i % 2 else "float"})
     for i in range(2 if tier == "quick" else 6):
         out.append({"kind": "spellings", "name": f"spellings{i}", "n": 8 if tier == "quick" else 80,
@@ -523,6 +526,23 @@ def run_shard(spec, rec):
             world.fresh_per_question = True
             run_history(ops, world, rec, rng, "spellings", pool=pool)
             rec.count("derived_spelling_histories")
+    elif spec["kind"] == "compatctx":
+        # compatible-unit listings asked inside and outside rule contexts, also for dimensions that have NO unit
+        # of their own (joule / mole: the listing there is the union of what the context links it to): the
+        # listings of the linked dimensions must read the same before, inside and after
+        pool0 = [("compat", "joule / mole"), ("compat", "joule"), ("compat", "gram"), ("parse_units", "dab"),
+                 ("compat", "kelvin"), ("compat", "joule / kelvin / mole"), ("compat", "hertz"), ("compat", "meter")]
+        for i in range(spec["n"]):
+            order = list(range(8))
+            if i:
+                rng.shuffle(order)
+            allq = [f"q{j}" for j in order]
+            ops = list(allq)
+            for _ in range(rng.randint(2, 4)):
+                ops += ["ctx_rule_on"] + allq + [rng.choice(("ctx_off", "ctx_rule_on", "sys"))] + allq
+            world.fresh_per_question = True
+            run_history(ops, world, rec, rng, "compatctx", pool=list(pool0))
+            rec.count("compatible_listing_histories")
     elif spec["kind"] == "redefctx":
         # every question about a unit that depends on the unit redefined by the context 'vredef' (directly,
         # or through symbols / aliases several definitions away) is asked before, inside and after it
